@@ -494,34 +494,67 @@ func checkDirRestored(c *Ctx, rule string) {
 		if len(saved) == 0 {
 			return
 		}
-		f := newFlow(info, fi.Decl.Body)
-		isStore := func(nd ast.Node, restore bool) bool {
-			as, ok := nd.(*ast.AssignStmt)
-			if !ok || len(as.Lhs) != len(as.Rhs) {
+		bodies := []*ast.BlockStmt{fi.Decl.Body}
+		ast.Inspect(fi.Decl.Body, func(m ast.Node) bool {
+			if fl, ok := m.(*ast.FuncLit); ok {
+				bodies = append(bodies, fl.Body)
+			}
+			return true
+		})
+		for _, body := range bodies {
+			f := newFlow(info, body)
+			isStore := func(nd ast.Node, restore bool) bool {
+				as, ok := nd.(*ast.AssignStmt)
+				if !ok || len(as.Lhs) != len(as.Rhs) {
+					return false
+				}
+				for i, l := range as.Lhs {
+					if !isField(info, l, pMigrate, "Executor", "dir") {
+						continue
+					}
+					id, isID := ast.Unparen(as.Rhs[i]).(*ast.Ident)
+					isSaved := isID && saved[info.ObjectOf(id)]
+					if isSaved == restore {
+						return true
+					}
+				}
 				return false
 			}
-			for i, l := range as.Lhs {
-				if !isField(info, l, pMigrate, "Executor", "dir") {
-					continue
-				}
-				id, isID := ast.Unparen(as.Rhs[i]).(*ast.Ident)
-				isSaved := isID && saved[info.ObjectOf(id)]
-				if isSaved == restore {
+			// a deferred closure that puts the saved directory back also restores it on every exit
+			isRestore := func(nd ast.Node) bool {
+				if isStore(nd, true) {
 					return true
 				}
+				if d, ok := nd.(*ast.DeferStmt); ok {
+					if fl, ok := d.Call.Fun.(*ast.FuncLit); ok {
+						hit := false
+						ast.Inspect(fl.Body, func(k ast.Node) bool {
+							if st, ok := k.(ast.Stmt); ok && isStore(st, true) {
+								hit = true
+							}
+							return true
+						})
+						return hit
+					}
+				}
+				return false
 			}
-			return false
-		}
-		for _, pt := range f.find(func(nd ast.Node) bool { return isStore(nd, false) }) {
-			n++
-			c.funcs[fi.Name] = true
-			at, reached := f.reach([]point{after(pt)}, func(nd ast.Node) bool { return isStore(nd, true) }, isReturn, true)
-			pos := pt.b.Nodes[pt.i].Pos()
-			where := ""
-			if at != nil {
-				where = c.pos(at.Pos())
+			for _, pt := range f.find(func(nd ast.Node) bool { return isStore(nd, false) }) {
+				n++
+				c.funcs[fi.Name] = true
+				// a deferred restore registered on every path before the store covers all exits
+				if _, ok := f.mustPrecede(func(nd ast.Node) bool { _, isDefer := nd.(*ast.DeferStmt); return isDefer && isRestore(nd) }, func(nd ast.Node) bool { return nd == pt.b.Nodes[pt.i] }); ok && len(f.find(func(nd ast.Node) bool { _, isDefer := nd.(*ast.DeferStmt); return isDefer && isRestore(nd) })) > 0 {
+					c.Check(rule, fi.Name+"|e.dir restored after "+types.ExprString(pt.b.Nodes[pt.i].(*ast.AssignStmt).Rhs[0]), pt.b.Nodes[pt.i].Pos(), true, "")
+					continue
+				}
+				at, reached := f.reach([]point{after(pt)}, isRestore, isReturn, true)
+				pos := pt.b.Nodes[pt.i].Pos()
+				where := ""
+				if at != nil {
+					where = c.pos(at.Pos())
+				}
+				c.Check(rule, fi.Name+"|e.dir restored after "+types.ExprString(pt.b.Nodes[pt.i].(*ast.AssignStmt).Rhs[0]), pos, !reached, "%s replaces e.dir and can return (%s) without putting the saved directory back: the executor keeps working on the temporary copy, and later Pending/Execute calls on it see a truncated directory", fi.Name, where)
 			}
-			c.Check(rule, fi.Name+"|e.dir restored after "+types.ExprString(pt.b.Nodes[pt.i].(*ast.AssignStmt).Rhs[0]), pos, !reached, "%s replaces e.dir and can return (%s) without putting the saved directory back: the executor keeps working on the temporary copy, and later Pending/Execute calls on it see a truncated directory", fi.Name, where)
 		}
 	})
 	if n == 0 {
